@@ -31,7 +31,7 @@ type c16Prog struct {
 	DDL    []string          `json:"tables"`
 	Steps  []gtxStep         `json:"steps"`
 	Feat   map[string]string `json:"features"`
-	Mode   string            `json:"mode"` // outside | inside
+	Mode   string            `json:"mode"`                  // outside | inside
 	KillAt int               `json:"kill_idle_before_step"` // -1: never; else the pooled connections are closed by the server before this step
 }
 
